@@ -86,7 +86,7 @@ fn run_instance_via(seed: Option<u64>, err_rate: f64, lat_rate: f64, min: u64, m
             b.build()
         }
     };
-    let mut svc = layer.layer(GatedInner::new(w.inner.clone()));
+    let mut svc = if order % 2 == 0 { layer.clone().layer(GatedInner::new(w.inner.clone())) } else { layer.layer(GatedInner::new(w.inner.clone())) };
     let mut out = vec![];
     for i in 0..N_REQ {
         let req = Req::new(i as u32, (i % 3) as u8);
